@@ -55,4 +55,17 @@ SCENARIOS = {
                    "own": {"gets": ["x", "x.target_rec", "x.target_side"], "sets": ["@ReturnValue.t"], "dels": []}},
         "reorder": ["target.py"],
     },
+    # an imported function calls helpers that have no IR of their own there (they are @rattr_ignore'd);
+    # functions of the same name and shape in the target file are unrelated to it
+    "imported_callers_of_helpers_without_ir": {
+        "files": {
+            "target.py": "from freight_lib import report\n\ndef main(x):\n    return report(x.rows)\n",
+            "freight_lib.py": "from rattr import rattr_ignore\n\n@rattr_ignore\ndef weight(parcel):\n    return parcel.kilograms\n\n"
+                              "@rattr_ignore\ndef invoice(row):\n    return row.tariff\n\ndef report(rows):\n    return weight(rows.first), invoice(rows.last)\n",
+        },
+        "expect": {"main": {"gets": ["x.rows", "x.rows.first", "x.rows.last"], "sets": [], "dels": []}},
+        "reorder": ["target.py"],
+        "unrelated": {"target.py": ["def weight(parcel):\n    return parcel.kilograms_in_target\n", "def invoice(row):\n    return row.tariff_in_target\n",
+                                    "def weight(parcel):\n    return parcel.w2\n\ndef invoice(row):\n    return row.t2\n"]},
+    },
 }
